@@ -87,33 +87,50 @@ func (cr *chainRun) checkUp(run *caseRun, ev *upEvent) {
 		viol("upstream-query-unparseable", "the query mosdns sent upstream does not parse: "+err.Error())
 		return
 	}
+	// every OPT record of the client's additional section counts as "the client's
+	// EDNS0": with several of them (hostile input) none may reach the upstream either
+	cOpts := c.clientOpts()
+	addl := ""
+	if c.Additional != nil {
+		addl = fmt.Sprintf(" [client additional section: %s = %d OPT among %d records]", c.additionalShape(), len(cOpts), len(c.Additional))
+		rep.Count("up_queries_for_generated_client_additional", 1)
+		if len(c.Additional) > 1 {
+			rep.Count("up_queries_for_multi_record_client_additional", 1)
+		}
+	}
 	an, ns, ar := count41(m)
 	if an+ns+ar != 1 || ar != 1 {
-		viol("opt-count-up", fmt.Sprintf("query sent upstream carries %d OPT records (answer %d, authority %d, additional %d); want exactly one in the additional section", an+ns+ar, an, ns, ar))
+		viol("opt-count-up", fmt.Sprintf("query sent upstream carries %d OPT records (answer %d, authority %d, additional %d); want exactly one in the additional section%s", an+ns+ar, an, ns, ar, addl))
 		return
 	}
 	o := m.OPTs()[0]
 	if o.ExtRcode != 0 {
 		w := fmt.Sprintf("OPT sent upstream has extended-rcode bits %#x (TTL field %#08x)", o.ExtRcode, o.TTL)
-		if c.Opt != nil && c.Opt.ExtRcode == o.ExtRcode {
-			w += "; they are the bits of the client's OPT TTL field"
+		for _, co := range cOpts {
+			if co.ExtRcode == o.ExtRcode {
+				w += "; they are the bits of the client's OPT TTL field"
+				break
+			}
 		}
-		viol("client-ext-rcode-leaked-upstream", w)
+		viol("client-ext-rcode-leaked-upstream", w+addl)
 	}
 	if o.Version != 0 || o.Z != 0 {
-		viol("client-opt-fields-leaked-upstream", fmt.Sprintf("OPT sent upstream has version %d, Z bits %#x (client OPT: %+v); a fresh OPT has version 0 and no Z bits", o.Version, o.Z, c.Opt))
+		viol("client-opt-fields-leaked-upstream", fmt.Sprintf("OPT sent upstream has version %d, Z bits %#x (client OPT: %+v); a fresh OPT has version 0 and no Z bits%s", o.Version, o.Z, c.Opt, addl))
 	}
-	if c.Opt != nil && o.UDPSize == c.Opt.Size {
-		// the generator never gives the client mosdns' own size (1200)
-		viol("client-opt-fields-leaked-upstream", fmt.Sprintf("OPT sent upstream advertises the client's UDP size %d instead of mosdns' own", o.UDPSize))
+	for _, co := range cOpts {
+		if o.UDPSize == co.Size {
+			// the generator never gives the client mosdns' own size (1200)
+			viol("client-opt-fields-leaked-upstream", fmt.Sprintf("OPT sent upstream advertises the client's UDP size %d instead of mosdns' own%s", o.UDPSize, addl))
+			break
+		}
 	}
 	if o.DO {
 		rep.Count("up_opt_do_set", 1)
 	}
 	named := cr.desc.namedUp()
 	var clientOpts []wire.Option
-	if c.Opt != nil {
-		clientOpts = c.Opt.Options
+	for _, co := range cOpts {
+		clientOpts = append(clientOpts, co.Options...)
 	}
 	clientCodes := codeSet(clientOpts)
 	gen := cr.desc.generatedECS(c.ClientAddr)
@@ -214,6 +231,11 @@ func (cr *chainRun) checkReply(run *caseRun, reply []byte) replyInfo {
 	// the cache, and no OPT's TTL field is rewritten by ttl / ageing / truncation.
 	multiUp := fgDelivered && len(c.Up.Opts) > 1
 	surplus := multiUp || injected
+	// (c) the client's query itself carried several OPT records: "exactly one OPT
+	// iff the client's query had one" says nothing about it. Whatever mosdns does
+	// with such a query (HEAD drops it in the entry handler), only what an
+	// upstream receives is judged (checkUp).
+	multiClient := len(c.clientOpts()) > 1
 
 	// what the terminal saw when a response was already installed (a cached answer)
 	if hit {
@@ -243,6 +265,10 @@ func (cr *chainRun) checkReply(run *caseRun, reply []byte) replyInfo {
 		return info
 	}
 	info.truncated = m.TC()
+	if multiClient {
+		rep.Count("out_of_quantifier_multi_opt_query_reply_not_judged", 1)
+		return info
+	}
 	if rc := m.Rcode(); (rc == 2 || rc == 5) && !fgDelivered {
 		// SERVFAIL / REFUSED synthesised by the handler (or reject): judged like any reply
 		rep.Count(fmt.Sprintf("handler_made_replies_judged:rcode%d", rc), 1)
